@@ -16,7 +16,7 @@ FLOORS = {"quick": {"scalar_calls": 800, "vector_calls": 150, "sign_change_cases
                     "mixed_vectors": 40, "insitu_contract_evaluations": 100},
           "thorough": {"scalar_calls": 8000, "vector_calls": 1500, "sign_change_cases": 5000, "steep_sign_change_cases": 1000, "no_sign_change_cases": 1000,
                        "mixed_vectors": 400, "insitu_contract_evaluations": 1500}}
-FAMILIES = ["linear", "cubic", "tanh", "expm", "poly3roots", "sin", "jump", "tangent", "endpoint", "positive", "sqrtlike"]
+FAMILIES = ["linear", "cubic", "tanh", "expm", "poly3roots", "sin", "jump", "tangent", "endpoint", "positive", "sqrtlike", "bigexp", "quintic"]
 
 
 class Fn:
@@ -48,6 +48,10 @@ class Fn:
             return s * d * d
         if f == "positive":
             return s * (1.0 + d * d)
+        if f == "bigexp":     # values at the far end of a wide bracket exceed sqrt(max float32): products of function values overflow
+            return s * (np.exp(d) - 2.0)
+        if f == "quintic":
+            return s * (d ** 5 - 3.0)
         if f == "sqrtlike":
             return s * np.sign(d) * np.sqrt(np.abs(d))
         raise ValueError(f)
@@ -87,6 +91,10 @@ def _bracket(spec, dt):
     fam = spec["fam"]
     lo = r + half * (off - 1.0)
     hi = r + half * (off + 1.0)
+    if fam == "bigexp":
+        lo, hi = r - 1.0, r + 20.0 + 6.0 * half       # exp(20..80): 5e8 .. 5e34
+    if fam == "quintic":
+        lo, hi = r + 0.5, r + 40.0 + 40.0 * half      # x^5 up to 1e13
     if fam == "endpoint":
         lo = r
     a, b = (lo, hi) if spec["order"] == 0 else (hi, lo)
